@@ -14,7 +14,7 @@ fn arith(a, b) {
 fn calls(x) {
   io.println("hi")
   let y = x.field
-  let z = x.0.1
+  let z = x.0
   let w = f(x, label: y, other: z)(1)
   x |> f |> g(1, _) |> h.i
   f(_, 1)
